@@ -49,8 +49,6 @@ Verdict comparison on the real tracer (`compile_function()` of /repo's sources):
 """
 from __future__ import annotations
 
-import itertools
-
 ID = "C22"
 LEVEL = "model_checking"
 
@@ -481,22 +479,24 @@ def run_model(ops):
 
 
 # ---------------------------------------------------------------------- enumeration
-def alphabet(kinds):
+def alphabet(kinds, muts=True):
     ops, rets, leaks = [], [], []
     for k in kinds:
         o, r = kind_ops(k)
+        if not muts:
+            o = [x for x in o if x[1] != "mut"]
         ops += o
         rets += r
         leaks.append((k, "leak", None))
     return ops, rets, leaks
 
 
-def enumerate_bodies(kinds, maxlen, minlen=0):
+def enumerate_bodies(kinds, maxlen, minlen=0, muts=True):
     """All canonical op sequences of minlen..maxlen ops over `kinds`: leak ops first in
     KINDS order and only for values no other op mentions; `return` only as last op; a
     prefix on which the model already demands a use-time error (second use) is not
     extended (the remaining statements would be dead code)."""
-    ops, rets, leaks = alphabet(kinds)
+    ops, rets, leaks = alphabet(kinds, muts)
     out = []
     pruned = [0]
     guarded = [0]
@@ -534,39 +534,47 @@ def enumerate_bodies(kinds, maxlen, minlen=0):
     return out, pruned[0], guarded[0]
 
 
-def explore_states(kinds, depth):
+def explore_states(kinds, depth, muts, index, trans, finals):
     """BFS over the model's state graph (not over traces): distinct states reachable in
-    <= depth ops and distinct (state, op) transitions, final-state verdicts included."""
-    ops, rets, leaks = alphabet(kinds)
+    <= depth ops, distinct (state, op) transitions and distinct (final state, verdict)
+    pairs are accumulated into the shared containers `index` / `trans` / `finals`."""
+    ops, rets, leaks = alphabet(kinds, muts)
+    allops = leaks + ops + rets
+
+    def ident(key):
+        if key not in index:
+            index[key] = len(index)
+        return index[key]
+
     init = St()
-    seen = {init.key()}
+    ident(init.key())
     frontier = [init]
-    transitions = 0
-    finals = set()
+    local_seen = {init.key()}
     for _ in range(depth):
         nxt = []
         for st in frontier:
-            finals.add((st.key(), finish(st)[0]))
+            sid = ident(st.key())
+            finals.add((sid, finish(st)[0]))
             if st.halt:
                 continue
-            for op in leaks + ops + rets:
+            for op in allops:
                 try:
                     st2 = step(st, op)
                 except Guard:
                     continue
-                transitions += 1
+                trans.add((sid, op_id(op)))
                 if op[1] in ("ret", "wret"):
-                    finals.add((st2.key(), finish(st2)[0]))
-                    seen.add(st2.key() + ("returned",))
+                    rid = ident(st2.key() + ("returned",))
+                    finals.add((rid, finish(st2)[0]))
                     continue
                 k2 = st2.key()
-                if k2 not in seen:
-                    seen.add(k2)
+                ident(k2)
+                if k2 not in local_seen:
+                    local_seen.add(k2)
                     nxt.append(st2)
         frontier = nxt
     for st in frontier:
-        finals.add((st.key(), finish(st)[0]))
-    return len(seen), transitions, len(finals)
+        finals.add((ident(st.key()), finish(st)[0]))
 
 
 # ------------------------------------------------------------------ implementation
@@ -587,7 +595,8 @@ def run_impl(src):
         except RecursionError as e:
             return ("crash", "RecursionError", str(e)[:120])
         except Exception as e:  # noqa: BLE001
-            return ("crash", type(e).__name__, str(e)[:160])
+            import re
+            return ("crash", type(e).__name__, re.sub(r"id=\d+", "id=N", str(e))[:160])
         bad = gload.validate(pkg)
         if bad is not None:
             lines = [ln.strip() for ln in bad.splitlines() if ln.strip()]
@@ -681,10 +690,14 @@ def _bypass(name):
 
 # ------------------------------------------------------------------------------ run
 def space(tier):
-    """[(label, kinds, maxlen, minlen)] — each part is enumerated completely."""
+    """Parts of the enumerated space: (label, kinds, maxlen, minlen, with mutators).  Each
+    part is enumerated completely; a body occurring in two parts is replayed once."""
+    derived = [(f"{k}<=2", [k], 2, 0, True) for k in ("na", "fa", "pa")]
     if tier == "quick":
-        return [("full<=2", KINDS, 2, 0), ("tiny=3", TINY, 3, 3)]
-    return [("full<=2", KINDS, 2, 0), ("core=3", CORE, 3, 3), ("tiny=4", TINY, 4, 4)]
+        return [("core<=2", CORE, 2, 0, True)] + derived
+    single3 = [(f"{k}=3", [k], 3, 3, True) for k in KINDS]
+    return ([("all<=2", KINDS, 2, 0, True)] + single3 +
+            [("core-nomut=3", CORE, 3, 3, False), ("tiny=4", TINY, 4, 4, True)])
 
 
 def run(ctx):
@@ -697,24 +710,25 @@ def run(ctx):
     bodies = []
     parts = {}
     pruned = guarded = 0
-    for label, kinds, maxlen, minlen in space(ctx.tier):
-        seqs, p, g = enumerate_bodies(kinds, maxlen, minlen)
+    index, trans, finals_set = {}, set(), set()
+    depth = 0
+    for label, kinds, maxlen, minlen, muts in space(ctx.tier):
+        seqs, p, g = enumerate_bodies(kinds, maxlen, minlen, muts)
         parts[label] = len(seqs)
         pruned += p
         guarded += g
         bodies += seqs
-    # distinct bodies only (parts overlap by construction only if bounds overlap)
+        depth = max(depth, maxlen)
+        explore_states(kinds, maxlen, muts, index, trans, finals_set)
     bodies = sorted(set(bodies), key=lambda s: (len(s), [op_id(o) for o in s]))
-
-    depth = max(m for _, _, m, _ in space(ctx.tier))
-    states = transitions = finals = 0
-    for label, kinds, maxlen, _ in space(ctx.tier):
-        s, t, f = explore_states(kinds, maxlen)
-        states += s
-        transitions += t
-        finals += f
+    states, transitions, finals = len(index), len(trans), len(finals_set)
 
     items = [[op_id(o) for o in seq] for seq in bodies]
+    # warm the parent (std-lib definitions get parsed / checked once and are then inherited
+    # by the forked workers): every single-op body, results discarded
+    for it in items:
+        if len(it) == 1:
+            _judge_ids(it)
     results = ctx.pmap(_judge_ids, items, chunk=64)
 
     cnt = {"ok/ok": 0, "violation/error": 0}
